@@ -33,7 +33,8 @@ def r1b_extension_op_chain(ctx, nf) -> None:
     file = ext_op.module.path
     k, m = ext_op.find_method("_to_serial")
     t, _ = nf.method_nf(ext_op, "_to_serial")
-    ok = t[0] in ("call", "enc") and "to_custom_op" in show(t)
+    pname = m.args.args[1].arg
+    ok = t == nf.expr_nf(f"self.to_custom_op()._to_serial({pname})", ext_op, extra={pname: sym(pname)})[0]
     ctx.check(ok, "C05.R1", "hugr.ops.ExtOp._to_serial", file, m.lineno, "ExtOp must encode as self.to_custom_op()._to_serial(parent)", m, found=show(t))
     want = {
         "op_name": [attr(attr(attr(sym("self"), "_op_def"), "name"), None)],
